@@ -133,12 +133,65 @@ def resolve_product_interp(repo, fname: str) -> Triple:
     return t
 
 
+def captured_functions(repo, fname: str, signature):
+    """(interpreter, filter, sign, keyout, operand order) as FUNCTION VALUES: the wrapper chain of codegen.<fname> is run
+    on generic full operands of an algebra with the given signature and codegen_product is replaced by a recorder.
+    The values can be applied with interpreter.call(value, [kx, ky, ...]) whatever their form (lambda, nested def,
+    bound method of a helper object, callable instance)."""
+    from .absint import PyFunc
+    from .symenv import make_interp, rep_algebra, mv_obj
+    d = len(signature)
+    alg = rep_algebra(d, extra_attrs={"signs": sign_table_obj(list(signature)), "signature": list(signature),
+                                      "p": sum(1 for x in signature if x == 1), "q": sum(1 for x in signature if x == -1),
+                                      "r": sum(1 for x in signature if x == 0)})
+    n = 2 ** d
+    x = mv_obj(alg, tuple(range(n)), [Obj("token", {"fmt": f"a{k}", "name": f"a{k}"}) for k in range(n)])
+    y = mv_obj(alg, tuple(range(n)), [Obj("token", {"fmt": f"b{k}", "name": f"b{k}"}) for k in range(n)])
+    seen = {}
+
+    def recorder(a, b, filter_func=None, sign_func=None, keyout_func=None, **kw):
+        seen.update(x=a, y=b, filter=filter_func, sign=sign_func, keyout=keyout_func)
+        return {}
+    it = make_interp(repo)
+    it.algebra = alg
+    it.instance_classes["algebra"] = "algebra.Algebra"
+    it.overrides["codegen.codegen_product"] = PyFunc(recorder, "codegen_product", True)
+    out = it.run(f"codegen.{fname}", [x, y])
+    if out[0] == "raise" or "x" not in seen:
+        raise ValueError(f"generic operands do not reach codegen_product ({out!r})")
+    order = tuple(0 if o is x else 1 if o is y else "?" for o in (seen["x"], seen["y"]))
+    return it, seen["filter"], seen["sign"], seen["keyout"], order
+
+
+def bounded_filter_table(repo, fname: str, signature):
+    """{(kx, ky): (kept?, key_out)} for ALL blade pairs of the algebra, by applying the captured function values."""
+    it, filt, _sign, keyout, order = captured_functions(repo, fname, signature)
+    n = 2 ** len(signature)
+    table = {}
+    for kx in range(n):
+        for ky in range(n):
+            ko = it.call(keyout, [kx, ky], {}) if keyout is not None else kx ^ ky
+            if not isinstance(ko, int):
+                raise ValueError(f"key-out of ({kx}, {ky}) evaluates to {ko!r}")
+            keep = True if filt is None else it.truth(it.call(filt, [kx, ky, ko], {}))
+            table[kx, ky] = (bool(keep), ko)
+    return table, order
+
+
 def resolve_product(repo, fname: str, bindings: Optional[Dict[str, ast.AST]] = None, chain=None) -> Triple:
     """Follow `return codegen_X(x, y, kw=...)` wrappers down to codegen_product (syntactically; when a wrapper is not a
     straight-line forwarding call, by running the chain on generic operands)."""
     if not chain and not bindings:
         try:
-            return _resolve_product_syntactic(repo, fname, None, None)
+            t = _resolve_product_syntactic(repo, fname, None, None)
+            odd = [a for a in (t.filter, t.keyout, t.sign) if a is not None and not isinstance(a, ast.Lambda)
+                   and un(a) not in ("operator.xor", "operator.or_", "operator.and_")]
+            if odd:
+                try:
+                    return resolve_product_interp(repo, fname)
+                except Exception:
+                    return t
+            return t
         except Unknown as exc:
             try:
                 return resolve_product_interp(repo, fname)
